@@ -485,6 +485,16 @@ RUNNER_F7 = dict(op="runner", test_threads=3, capture="split", retries=0, groups
                      dict(name="c", sleep_ms=120, threads_required=2)])], tag="runner-F7")
 
 
+# ungrouped long tests take global slots 0 and 1 first; the grouped tests then run with a global
+# slot different from their group slot (separates the two numberings)
+RUNNER_SLOTS = dict(op="runner", test_threads=3, capture="split", retries=1, groups={"g": 1},
+                    binaries=[dict(id="pkg", tests=[
+                        dict(name="u1", sleep_ms=260, prio=9), dict(name="u2", sleep_ms=260, prio=8),
+                        dict(name="g1", sleep_ms=30, group="g", prio=1, fail_until=1),
+                        dict(name="g2", sleep_ms=30, group="g"), dict(name="g3", sleep_ms=30, group="g")])],
+                    tag="runner-slots")
+
+
 def py_components(s):
     if "::" not in s:
         return (s, 0, "", "")
@@ -639,7 +649,7 @@ def runner_f7_shape(sc, res):
 def run_runner_scenarios(chk, binary, r, thorough, tags, prop, with_f7):
     """corr:runner-wiring: returns number of scenarios validated"""
     scs = [dict(RUNNER_F7)] if with_f7 else []
-    scs += [gen_runner(r, "none"), gen_runner(r, "j1"), gen_runner(r, "j1")]
+    scs += [dict(RUNNER_SLOTS), gen_runner(r, "none"), gen_runner(r, "j1"), gen_runner(r, "j1")]
     while len(scs) < (60 if thorough else 12):
         scs.append(gen_runner(r))
     impl = vlib.run_impl(binary, "fq", [{k: v for k, v in s.items() if k != "tag"} for s in scs], timeout=900)
